@@ -39,3 +39,16 @@ def equal_but_distinct_blocks(circ):
             if a is not b and a == b and hash(a) == hash(b):
                 out.append((i, objs.index(b)))
     return out
+
+
+KF_SHIFT_POSITION = 'known:coordinate-shift-position'
+
+
+def shift_only_difference(a, b, is_shift):
+    """F11: two sequences differ only in where zero-length coordinate-shift annotations are listed."""
+    from collections import Counter
+    if a == b:
+        return False
+    ra, rb = [x for x in a if not is_shift(x)], [x for x in b if not is_shift(x)]
+    sa, sb = Counter(repr(x) for x in a if is_shift(x)), Counter(repr(x) for x in b if is_shift(x))
+    return ra == rb and sa == sb
